@@ -9,7 +9,7 @@ META = {
     "technique": "Rocq proof that the executable audit rc_exact_b decides 'reported count = handles + stored parent edges (+ manager-owned chain edges)' and that exact counts with no zero-count node imply every stored node is reachable from a handle; state-machine theorems on the interleaving model (whole collection frees exactly the unreferenced nodes); for MTBDDs a model of the dynamic terminal manager (hash-consed, reference-counted terminals in slots with a free chain) with the invariant 'values distinct, slots partitioned, count = owned edges + parent edges' preserved under every interleaving; correspondence: the audits run on a snapshot of the real manager after every step of histories with clone/drop (also on other threads), explicit and automatic gc, reordering and failing operations, plus capacity probes for inner nodes and terminals, and the extracted terminal-manager model is replayed on the lifted snapshot for every gc() and every constant()",
     "category": "proof",
     "design_ref": "DESIGN.md section 5, C05",
-    "level_text": "Theorems (coq/Props/C05.v): rc_exact_b_spec (the audit is exactly the property's counting equation), no_dead_b_spec and no_dead_reachable (on a well-formed table with exact counts, 'no node with count 0' means every stored node is reachable from a live handle, i.e. a collection left exactly the referenced nodes). Tie to the code: after every step of every history the extracted audit is evaluated on the lifted manager (for ZBDD the manager's own tautology chain is included as owner); after each gc() no unreferenced node may remain and every handle must denote the same value table as before; after dropping all handles and gc() the node count must be that of a fresh manager; a capacity probe fills a small manager with single-node functions that are all kept alive and requires the store to be completely full at the first out-of-memory, before and after a history (no slot is lost). MTBDD terminals (coq/Mgr/Terminals.v mirrors terminal_manager/dynamic.rs: get_edge, retain/release, iterator, gc, free chain; 35 theorems C05_term_*): the invariant (ids and values pairwise distinct, ids + free chain partition the slots, count = owner tokens + parent edges of stored inner nodes) holds in every state reachable under any interleaving of the threads' actions, collector steps and whole collections; gc removes exactly the terminals without owner and parent (any visiting order); get_edge returns the same id for a value until that terminal is collected, fails iff the value is absent and all slots are in use, and re-creates a collected value as a new entry; Manager::gc keeps a terminal iff a handle or a surviving inner node refers to it; after dropping all handles nothing is left and every slot is free; the iterator's retain and the consumer's drop_edge cancel. Tie: on every MTBDD snapshot the extracted invariant checker minv_b holds on the lifted state; for every GC the ids of the surviving terminals and inner nodes equal those of the extracted tcollect on the pre-state; for every constant() the extracted tstep(TGet) decides live terminal (the handle must be exactly it) / new slot (an id not in use) / out of memory; a terminal capacity probe (managers with 3..12 terminal slots) must find every slot in use at the first OutOfMemory, before and after a history with collections.",
+    "level_text": "Theorems (coq/Props/C05.v): rc_exact_b_spec (the audit is exactly the property's counting equation), no_dead_b_spec and no_dead_reachable (on a well-formed table with exact counts, 'no node with count 0' means every stored node is reachable from a live handle, i.e. a collection left exactly the referenced nodes). Tie to the code: after every step of every history the extracted audit is evaluated on the lifted manager (for ZBDD the manager's own tautology chain is included as owner); after each gc() no unreferenced node may remain and every handle must denote the same value table as before; after dropping all handles and gc() the node count must be that of a fresh manager; a capacity probe fills a small manager with single-node functions that are all kept alive and requires the store to be completely full at the first out-of-memory, before and after a history (no slot is lost). MTBDD terminals (coq/Mgr/Terminals.v mirrors terminal_manager/dynamic.rs: get_edge, retain/release, iterator, gc, free chain; 36 theorems C05_term_*): the invariant (ids and values pairwise distinct, ids + free chain partition the slots, count = owner tokens + parent edges of stored inner nodes) holds in every state reachable under any interleaving of the threads' actions, collector steps and whole collections; gc removes exactly the terminals without owner and parent (any visiting order); get_edge returns the same id for a value until that terminal is collected, fails iff the value is absent and all slots are in use, and re-creates a collected value as a new entry; Manager::gc keeps a terminal iff a handle or a surviving inner node refers to it; after dropping all handles nothing is left and every slot is free; the iterator's retain and the consumer's drop_edge cancel. Tie: on every MTBDD snapshot the extracted invariant checker minv_b holds on the lifted state; for every GC the ids of the surviving terminals and inner nodes equal those of the extracted tcollect on the pre-state and gc()'s return value equals tcollect_count; for every constant() the extracted tstep(TGet) decides live terminal (the handle must be exactly it) / new slot (an id not in use) / out of memory; a terminal capacity probe (managers with 3..12 terminal slots) must find every slot in use at the first OutOfMemory, before and after a history with collections.",
     "level_note": "Trusted: Coq kernel, extraction, OCaml driver, Rust harness, public accessor API (ref_count). Free lists, chunked slot allocation and the timing of the background collector are not modelled: their effect is observed at quiescence (snapshots are taken under the exclusive manager lock). Terminal reference counts are not readable through the public API: the lifted terminal table carries the counts the invariant prescribes (handles + parent edges); a wrong stored count shows as a terminal that survives or vanishes against the model at the next gc(). The slot order of the terminal manager's hash table (visiting order of gc and of the iterator, hence the order of the free chain) is not fixed by the model: theorems hold for every order; the overflow guard of retain and memory orderings are not modelled.",
 }
 ALLOWED_AXIOMS = ()
